@@ -282,6 +282,19 @@ def reap_orphans():
                 continue
     except Exception:
         pass
+    # temporary CNF / SMT2 files of killed back ends (older than 3 h: not from a running check)
+    try:
+        now = time.time()
+        for f in os.listdir("/tmp"):
+            if f.startswith("external-sat") or f.startswith("smt2_dec_problem_"):
+                p = os.path.join("/tmp", f)
+                try:
+                    if now - os.path.getmtime(p) > 3 * 3600:
+                        os.remove(p)
+                except OSError:
+                    pass
+    except Exception:
+        pass
 
 
 def run_kani(scratch_repo, pkg, harnesses, timeout_s=300, jobs=8, tests=False, extra=None, wall_timeout=None, playback=False, features=None):
